@@ -325,6 +325,21 @@ impl Judge {
     }
 }
 
+/// a source that delivers its data a few bytes per call (as a pipe or socket does)
+struct Trickle<'a> {
+    data: &'a [u8],
+    chunk: usize,
+}
+
+impl vm_memory::ReadVolatile for Trickle<'_> {
+    fn read_volatile<B: BitmapSlice>(&mut self, buf: &mut VolatileSlice<B>) -> Result<usize, VErr> {
+        let n = buf.len().min(self.chunk).min(self.data.len());
+        let w = buf.write(&self.data[..n], 0)?;
+        self.data = &self.data[w..];
+        Ok(w)
+    }
+}
+
 pub struct Mem;
 pub static MEM: Mem = Mem;
 
@@ -1492,20 +1507,21 @@ impl Mem {
             21 => {
                 // source: the crate's &[u8] / Cursor adapters (exact forms overridden) or a real file
                 // (default exact loop; it may run dry after some bytes have landed)
-                let srck = cx().a(3);
-                j.kind = ["read_volatile_from(&[u8])", "read_volatile_from(Cursor)", "read_volatile_from(File)"][srck as usize];
+                let srck = cx().a(4);
+                j.kind = ["read_volatile_from(&[u8])", "read_volatile_from(Cursor)", "read_volatile_from(File)", "read_volatile_from(trickling source)"][srck as usize];
                 let addr = gen_off(vlen).min(vlen.saturating_sub(1));
                 let count = gen_len(vlen);
                 let srclen = match cx().a(3) { 0 => count, 1 => count + 3, _ => cx().a(count as u32 + 1) as usize };
                 let src: Vec<u8> = (0..srclen).map(|i| pat(stamp, i)).collect();
                 let exact = cx().a(2) == 0;
-                j.desc = format!("{}({}, {} of {} bytes, {})", if exact { "read_exact_volatile_from" } else { "read_volatile_from" }, addr, ["&[u8]", "Cursor<&[u8]>", "File"][srck as usize], srclen, count);
+                j.desc = format!("{}({}, {} of {} bytes, {})", if exact { "read_exact_volatile_from" } else { "read_volatile_from" }, addr, ["&[u8]", "Cursor<&[u8]>", "File", "trickling source"][srck as usize], srclen, count);
                 if vlen == 0 || srclen == 0 {
                     return (format!("{} skipped (empty)", j.desc), j.kind);
                 }
                 let room = vlen - addr;
                 let mut s = &src[..];
                 let mut cur = std::io::Cursor::new(&src[..]);
+                let mut trickle = Trickle { data: &src[..], chunk: 1 + cx().a(7) as usize };
                 let mut file = in_mode(Mode::Setup, || {
                     let f = crate::gmworld::memfd(0);
                     if srck == 2 {
@@ -1521,11 +1537,12 @@ impl Mem {
                 if exact {
                     let fits = count <= room;
                     // the adapters refuse up front; the default loop stores what it got before noticing the end
-                    let k = if !fits { 0 } else if count <= srclen { count } else if srck == 2 { srclen } else { 0 };
+                    let k = if !fits { 0 } else if count <= srclen { count } else if srck >= 2 { srclen } else { 0 };
                     let got = with_allowed(rid, &[(abs(addr), abs(addr) + k)], || match srck {
                         0 => flat(catch(|| view.read_exact_volatile_from(addr, &mut s, count)), obs_unit),
                         1 => flat(catch(|| view.read_exact_volatile_from(addr, &mut cur, count)), obs_unit),
-                        _ => flat(catch(|| view.read_exact_volatile_from(addr, &mut file, count)), obs_unit),
+                        2 => flat(catch(|| view.read_exact_volatile_from(addr, &mut file, count)), obs_unit),
+                        _ => flat(catch(|| view.read_exact_volatile_from(addr, &mut trickle, count)), obs_unit),
                     });
                     let exp = if !fits { Obs::Oob } else if count > srclen { Obs::Io(ErrorKind::UnexpectedEof) } else { Obs::Unit };
                     conts[ci].model[voff + addr..voff + addr + k].copy_from_slice(&src[..k]);
@@ -1536,11 +1553,12 @@ impl Mem {
                     j.expect(&got, &exp);
                     tally!(got);
                 } else {
-                    let k = count.min(room).min(srclen);
+                    let k = count.min(room).min(srclen).min(if srck == 3 { trickle.chunk } else { usize::MAX });
                     let got = with_allowed(rid, &[(abs(addr), abs(addr) + k)], || match srck {
                         0 => flat(catch(|| view.read_volatile_from(addr, &mut s, count)), obs_count),
                         1 => flat(catch(|| view.read_volatile_from(addr, &mut cur, count)), obs_count),
-                        _ => flat(catch(|| view.read_volatile_from(addr, &mut file, count)), obs_count),
+                        2 => flat(catch(|| view.read_volatile_from(addr, &mut file, count)), obs_count),
+                        _ => flat(catch(|| view.read_volatile_from(addr, &mut trickle, count)), obs_count),
                     });
                     conts[ci].model[voff + addr..voff + addr + k].copy_from_slice(&src[..k]);
                     note_w(ci, voff + addr, voff + addr + k);
@@ -1548,6 +1566,7 @@ impl Mem {
                     let advanced = match srck {
                         0 => srclen - s.len(),
                         1 => cur.position() as usize,
+                        3 => srclen - trickle.data.len(),
                         _ => {
                             use std::os::fd::AsRawFd;
                             // SAFETY: our own descriptor.
